@@ -59,7 +59,7 @@ RefParse(fn, in, e) ==
     [] fn = "ReadRouterAddress" -> Of(RefRouterAddress(in))
     [] fn = "ReadRouterInfo" -> Of(RefRouterInfo(in))
     [] fn = "ReadLeaseSet" -> Of(RefLeaseSet(in))
-    [] fn = "ReadDestinationFromLeaseSet" -> Of(RefReadKAC(in))
+    [] fn = "ReadDestinationFromLeaseSet" -> Of(RefReadDestination(in))
     [] fn = "ReadLeaseSet2" -> Of(RefLeaseSet2(in))
     [] fn = "ReadMetaLeaseSet" -> Of(RefMetaLeaseSet(in))
     [] fn = "ReadEncryptedLeaseSet" -> Of(RefEncryptedLeaseSet(in))
